@@ -1,12 +1,12 @@
 SPECIFICATION Spec
 CONSTANTS
   MaxSteps = 2
-  DevAvg = TRUE
+  DevAvg = FALSE
   DevArr = FALSE
   DevStale = FALSE
   DevEmpty = FALSE
   Disturbs = FALSE
   DevRows = FALSE
-  DevInd = FALSE
+  DevInd = TRUE
 INVARIANTS LengthInv StepOKModKnown
 CHECK_DEADLOCK FALSE
